@@ -27,7 +27,7 @@ def run(chk, tier):
     for cfg in configs(tier, thorough=('std', 'nostd-spin', 'nostd')):
         F = load(chk, cfg)
         from props import builder as B
-        B.conversion_table(chk, F, 'R12.6', cfg)
+        B.conversion_table(chk, F, 'R12.7', cfg)
         # ---- R12.1 bounds
         once = impl_of(F, r'^output::IntoReturnOnce$', ref_rx=r'IntoReturnOnce<output::owning::Owning<T>>')
         multi = impl_of(F, r'^output::IntoReturn$', ref_rx=r'IntoReturn<output::owning::Owning<T>>')
